@@ -169,6 +169,26 @@ func gen(c *ex.Ctx) {
 		return
 	}
 	fmt.Fprintf(&sb, "def defaultQueueSize : Nat := %s\n\n", qs)
+	// the guard under which the default is installed, and the capacity expression of the queue
+	qguard, qcapx := "", ""
+	ast.Inspect(fn.Body, func(n ast.Node) bool {
+		switch x := n.(type) {
+		case *ast.IfStmt:
+			for _, st := range x.Body.List {
+				if as, ok := st.(*ast.AssignStmt); ok && len(as.Lhs) == 1 && c.Src(as.Lhs[0]) == "opts.EventQueueSize" && x.Else == nil && x.Init == nil {
+					qguard = c.Src(x.Cond)
+				}
+			}
+		case *ast.AssignStmt:
+			if len(x.Lhs) == 1 && len(x.Rhs) == 1 && c.Src(x.Lhs[0]) == "vx.queue" {
+				if call, ok := x.Rhs[0].(*ast.CallExpr); ok && c.Src(call.Fun) == "make" && len(call.Args) == 2 {
+					qcapx = c.Src(call.Args[1])
+				}
+			}
+		}
+		return true
+	})
+	fmt.Fprintf(&sb, "/-- New(): condition of the `if` that installs the default queue size; capacity expression of `vx.queue` (\"\" = not recognised). -/\ndef queueSizeGuard : String := %s\ndef queueCapExpr : String := %s\n\n", ex.LeanStr(qguard), ex.LeanStr(qcapx))
 
 	// 3. handleSequence skeleton
 	hs := ex.FindFunc(f, "Vaxis", "handleSequence")
